@@ -150,15 +150,17 @@ static Result execute2(const Toks &t) {
 
 static std::string make_line2(Rng &rng, const Opts &o, bool bmat) {
     Hdr h; h.kind = rng.range(0, 3);
-    long n = bmat ? rng.range(2, o.thorough() ? 14 : 9) : rng.range(2, o.thorough() ? 30 : 16);
+    long n = bmat ? rng.range(2, o.thorough() ? 12 : 8) : rng.range(2, o.thorough() ? 24 : 12);
     int fam = (int)rng.range(0, 4);
     h.A = fam <= 3 ? gen_spd(rng, n, fam) : gen_convdiff(rng, n);
     if (bmat) h.A = gen_spd(rng, n, (int)rng.range(0, 3));
     static const std::vector<long> ces = { 0, 1, 2, 3, 5 }; static const std::vector<long> mls = { 1, 2, 3, 10, 10 };
     h.ce = rng.pick(ces); h.dc = rng.coin(3, 4); h.ml = rng.pick(mls); h.ar = rng.coin(); h.nt = 1;
     h.s = h.kind == 0 ? Q(1 / over_interp_of_kind0) : Q(1);
-    RelaxPrm rp; rp.rk = rng.range(0, 4); rp.damping = Q::frac(rng.range(2, 7), 8); rp.degree = rng.range(1, 4); rp.higher = Q(1); rp.lower = Q::frac(1, 32); rp.scale = rng.coin();
-    Tail t; t.npre = rng.range(1, 3); t.npost = rng.coin(2, 3) ? t.npre : rng.range(1, 3); t.ncycle = rng.range(1, 2); t.pre_cycles = rng.coin(1, 6) ? 0 : rng.range(1, 2);
+    RelaxPrm rp; rp.rk = rng.range(0, 4); rp.damping = Q::frac(rng.range(2, 7), 8); rp.degree = rng.range(1, o.thorough() ? 3 : 2); rp.higher = Q(1); rp.lower = Q::frac(1, 32); rp.scale = rng.coin();
+    long smax = o.thorough() ? 3 : 2;
+    Tail t; t.npre = rng.range(1, smax); t.npost = rng.coin(2, 3) ? t.npre : rng.range(1, smax); t.ncycle = rng.range(1, 2); t.pre_cycles = rng.coin(1, 6) ? 0 : rng.range(1, 2);
+    if (t.ncycle == 2 && t.pre_cycles == 2) t.pre_cycles = 1;     // keep the rational growth bounded
     if (bmat) { t.npost = t.npre; t.pre_cycles = rng.range(1, 2); }
     Result dummy = run(h, {}, false);    // records the transfer operators (damped Jacobi hierarchy: same P, R)
     Line l; l << (bmat ? "amg_bmat" : "amg_apply") << h.kind << h.s << h.nt << h.ce << h.dc << h.ml << h.ar << h.A << (long)g_rec.size();
